@@ -51,7 +51,7 @@ CFG['drop_trait_impls'] = [r'^RandomizedCiphersuite$']       # frost-rerandomize
 CFG['elide_body'] = [r' :: Field for Secp256K1ScalarField :: ', r' :: Group for Secp256K1Group :: ', r' :: hash_to_array$', r' :: hash_to_scalar$',
                      r' :: Ciphersuite for Secp256K1Sha256TR :: (H1|H3|H4|H5|HDKG|HID)$']
 CFG['contract_dirs'] = CFG['contract_dirs'] + [os.path.join(VERIF, 'contracts_tr')]
-CFG['prelude_files'] = CFG['prelude_files'] + ['prelude/k256_model.rs', 'lemmas/vspec_tr.rs']
+CFG['prelude_files'] = CFG['prelude_files'] + ['prelude/k256_model.rs', 'lemmas/vspec_tr.rs', 'lemmas/vworld_tr.rs']
 CFG['prelude_modules'] = dict(CFG['prelude_modules'], k256_model=None, vspec_tr=None, vworld_tr=None)
 CFG['postlude_files'] = []
 # frost-secp256k1-tr depends on frost-rerandomized, which enables frost-core's `internals` feature (cargo unifies features): the
@@ -59,3 +59,28 @@ CFG['postlude_files'] = []
 CFG['features'] = ['internals']
 CFG['force_assumed'] = [r'serialization\.rs :: Serializable(Scalar|Element)<C> :: deserialize$']
 CFG['elide_body'] += CFG['force_assumed']
+
+# ---- world-dependent frost-core contracts -----------------------------------------------------------------------------------
+# Found by verifying the frost-core modules in THIS unit, i.e. without `default_world`: exactly the clauses below fail (their proofs go
+# through a hook call whose result only the default world pins down).  They are FALSE for the Taproot suite and are not emitted here;
+# the functions C18 needs get world-generic replacement blocks in contracts_tr/*.vc (phrased over the hook spec functions), the others
+# keep their remaining clauses.  `dev/world_check.py` re-derives the list.
+K = 'frost-core/src/'
+CFG['strip_clauses'] = {
+    K + 'batch.rs :: Item<C> :: new': ['exact'],
+    K + 'keys/dkg.rs :: compute_proof_of_knowledge': ['value'],
+    K + 'keys.rs :: split': ['value'],
+    K + 'lib.rs :: aggregate_custom': ['exact', 'released_signatures_verify'],
+    K + 'lib.rs :: aggregate': ['as_first_cheater'],
+    K + 'lib.rs :: detect_cheater': ['challenge_error', 'none', 'first', 'all'],
+    K + 'lib.rs :: verify_signature_share': ['session_error', 'valid', 'invalid'],
+    K + 'lib.rs :: verify_signature_share_precomputed': ['valid', 'invalid'],
+    K + 'round2.rs :: sign': ['value'],
+    K + 'traits.rs :: Ciphersuite :: verify_signature': ['rfc'],
+    K + 'verifying_key.rs :: VerifyingKey<C> :: verify': ['exact'],
+    # transitively (they rely on a stripped clause of a callee, or on the default encoding of the signature codec hooks):
+    K + 'keys.rs :: generate_with_dealer': ['value'],
+    K + 'keys/dkg.rs :: part1': ['value'],
+    K + 'signature.rs :: Signature<C> :: serialize': ['identity', 'value', 'length'],
+    K + 'signature.rs :: Signature<C> :: deserialize': ['wrong_length', 'bad_R', 'bad_z', 'value'],
+}
